@@ -5,11 +5,11 @@ import BrushVerif.Spec.Glob
 * `T <ext> <pat>` → `R=<regex text>`
 * `H <ext> <pat>` → `1`/`0`
 * `M <ext> <nocase> <pat> <s>…` → `<impl> <full> <spec> <features>`: per subject one character each;
-  `impl` = brush's `exactly_matches` as modelled (`U…` when the class text is outside the modelled
-  regex subset), `full` = the same regex anchored to the whole subject, `spec` = POSIX/bash
-  (`-` when the pattern text is outside the well-formed fragment); features: `B` has `!(…)`,
-  `A` backslash+alphanumeric bracket member, `O` regex set operator in bracket text, `X` class text starting with `^` after a dropped range, `C` named class,
-  `K` brush's grammar reads the text differently from POSIX.
+  `impl` = brush's `exactly_matches` as modelled (`U` if the emitted class text had an unescaped
+  regex set operator or a leading `^` — impossible since the class-text repairs, kept as a tripwire),
+  `full` = the same regex anchored to the whole subject, `spec` = POSIX/bash (`-` when the pattern
+  text is outside the well-formed fragment); features: `B` has `!(…)`, `O`/`X` the tripwire,
+  `C` named class, `K` brush's grammar reads the text differently from POSIX.
 * `G <ext> <nocase> <dotglob> <pat> <name>…` → `<impl names> <spec names|->` (comma separated, escaped)
 -/
 namespace BrushVerif.Drv.C08
@@ -29,15 +29,15 @@ def report (ext nc : Bool) (pt : Str) (ss : List Str) : Str :=
     let q := parsePat ext pt
     let re := toRe q
     let sq := specParse ext pt
-    let unmod := q.backslashAlnum || q.setOp || q.caretFirst
+    let unmod := q.setOp || q.caretFirst   -- never true since the class-text repairs (kept as a tripwire)
     let impl : Str := if unmod then ['U'] else ss.map fun s => bit (anchoredSearch nc re true s)
     let full : Str := if unmod then ['U'] else ss.map fun s => bit (re.full nc s)
     let spec : Str := match sq with
       | none => ['-']
       | some q' => ss.map fun s => bit (matchB nc q' s)
     let feats : Str :=
-      (if q.hasBang then ['B'] else []) ++ (if q.backslashAlnum then ['A'] else []) ++
-      (if q.setOp then ['O'] else []) ++ (if q.caretFirst then ['X'] else []) ++ (if q.hasCls then ['C'] else []) ++
+      (if q.hasBang then ['B'] else []) ++ (if q.setOp then ['O'] else []) ++
+      (if q.caretFirst then ['X'] else []) ++ (if q.hasCls then ['C'] else []) ++
       (match sq with | some q' => if q' = q then [] else ['K'] | none => []) ++ ['.']
     let nz (x : Str) : Str := if x.isEmpty then ['-'] else x
     nz impl ++ [' '] ++ nz full ++ [' '] ++ nz spec ++ [' '] ++ feats
